@@ -214,6 +214,7 @@ def run(ctx):
                ("leaf", 3, sp.SQL, [a], [{a: 3}], (0, None)))]
     corpus += sp.sorted_then_sequences(ctx.tier != "quick")
     corpus += sp.op_sequences(ctx.tier != "quick")
+    corpus += sp.self_join_nested()
     n += len(corpus)
     for i in range(n):
         if i < len(corpus):
